@@ -140,7 +140,7 @@ class TemporalEventsData(Block):
             return False
         return (
             self.format == other.format
-            and self.start_time == other.start_time
+            and np.float32(self.start_time) == np.float32(other.start_time)
             and len(self.events) == len(other.events)
             and all(e1 == e2 for e1, e2 in zip(self.events, other.events))
         )
